@@ -27,6 +27,9 @@ func scalarText(v interface{}) (string, bool) {
 	return "", false
 }
 
+// imgPrefix: the attribute prefix the image oracle works with (set per case).
+var imgPrefix = "-"
+
 type kv struct {
 	k string
 	v interface{}
@@ -61,7 +64,7 @@ func imageMap(m map[string]interface{}) interface{} {
 	for _, k := range sortedKeys(m) {
 		v := m[k]
 		switch {
-		case len(k) > 1 && strings.HasPrefix(k, "-"):
+		case len(k) > len(imgPrefix) && strings.HasPrefix(k, imgPrefix):
 			s, _ := scalarText(v)
 			out[k] = s
 		case k == "#text":
@@ -105,7 +108,7 @@ func imageDoc(api int, v interface{}, rt, et string) map[string]interface{} {
 				if _, isList := x.([]interface{}); isList {
 					return nil // single key holding a list: outside the property's root clause
 				}
-				if strings.HasPrefix(k, "-") || k == "#text" {
+				if (len(k) > len(imgPrefix) && strings.HasPrefix(k, imgPrefix)) || k == "#text" {
 					return nil // the single root key must be an element name
 				}
 				cs := imageChildren(k, x)
@@ -216,6 +219,8 @@ func c03Exec(op string) string {
 		return "bad-op " + c.err.Error()
 	}
 	mxj.SetAttrPrefix(ap)
+	imgPrefix = ap
+	defer func() { imgPrefix = "-" }()
 	mxj.XMLEscapeChars(esc)
 	if goEmpty {
 		mxj.XmlGoEmptyElemSyntax()
@@ -401,6 +406,32 @@ func (r *Rng) c03Map(depth int) map[string]interface{} {
 	return m
 }
 
+// rePrefix renames the "-x" attribute keys to prefix+"x"; withBare adds a key equal to the prefix.
+func rePrefix(v interface{}, prefix string, withBare bool) interface{} {
+	switch x := v.(type) {
+	case map[string]interface{}:
+		o := map[string]interface{}{}
+		for k, e := range x {
+			if strings.HasPrefix(k, "-") {
+				o[prefix+k[1:]] = e
+			} else {
+				o[k] = rePrefix(e, prefix, withBare)
+			}
+		}
+		if withBare && len(o) > 0 {
+			o[prefix] = "bare"
+		}
+		return o
+	case []interface{}:
+		o := make([]interface{}, len(x))
+		for i, e := range x {
+			o[i] = rePrefix(e, prefix, withBare)
+		}
+		return o
+	}
+	return v
+}
+
 func c03Gen(r *Rng, n int) []string {
 	var ops []string
 	for len(ops) < n {
@@ -425,7 +456,14 @@ func c03Gen(r *Rng, n int) []string {
 			v = r.c03Value(0, false)
 		}
 		goEmpty := r.P(15)
-		ops = append(ops, fmt.Sprintf("xenc %s %s 1 %d %d %s %s %s", encStr("-"), encStr("#text"), b2i(goEmpty), api, enc(v), encStr(r.Pick([]string{"root", "doc", "r"})), encStr(r.Pick([]string{"element", "e", "item"}))))
+		ap := "-"
+		if r.P(20) {
+			// another attribute prefix: the "-x" keys of the value become "<prefix>x" keys, and now
+			// and then a key is exactly the prefix (an element of that name, not an attribute)
+			ap = r.Pick([]string{"_", "__", "attr", "@"})
+			v = rePrefix(v, ap, r.P(40) && ap != "@")
+		}
+		ops = append(ops, fmt.Sprintf("xenc %s %s 1 %d %d %s %s %s", encStr(ap), encStr("#text"), b2i(goEmpty), api, enc(v), encStr(r.Pick([]string{"root", "doc", "r"})), encStr(r.Pick([]string{"element", "e", "item"}))))
 	}
 	return ops
 }
@@ -445,7 +483,7 @@ func init() {
 
 func singleAttrOrText(m map[string]interface{}) bool {
 	for k := range m {
-		if k == "#text" || (len(k) > 1 && strings.HasPrefix(k, "-")) {
+		if k == "#text" || (len(k) > len(imgPrefix) && strings.HasPrefix(k, imgPrefix)) {
 			return true
 		}
 	}
